@@ -139,7 +139,7 @@ def check(ctx):
     for (rel, q) in r6:
         fn = ctx.py.func(rel, q)
         if _falsy_zero(ctx, rel, q, fn) == 0:
-            ctx.holds("C04-R6", fn, rel, q, "no truth test / `or` default on resSeq/serial/order", "")
+            ctx.holds("C04-R6", fn, rel, q, "no truth test / `or` default on resSeq/serial/order/element", "")
 
     _dataframe(ctx)
     _hdf5(ctx)
@@ -151,8 +151,21 @@ def check(ctx):
 PRESERVED_INTS = ("resSeq", "serial", "order", "resseq")
 
 
+def _falsy_fields(ctx):
+    """Preserved fields with a legal falsy value: the integers (0) and, when Element defines __bool__/__len__, the element (virtual sites are falsy)."""
+    fields = list(PRESERVED_INTS)
+    try:
+        m = ctx.py.mod("mdtraj/core/element.py")
+        if any(k in m.functions for k in ("Element.__bool__", "Element.__len__")):
+            fields.append("element")
+    except Exception:
+        pass
+    return tuple(fields)
+
+
 def _falsy_zero(ctx, rel, q, fn):
-    """`x or d` / `if not x` / `if x` on a value that carries a preserved integer: 0 is a legal value."""
+    """`x or d` / `if not x` / `if x` on a value that carries a preserved integer (or element): 0 / the virtual site is a legal value."""
+    falsy = _falsy_fields(ctx)
     cfg = CFG(fn)
     defs = Defs(cfg)
     hits = 0
@@ -184,10 +197,10 @@ def _falsy_zero(ctx, rel, q, fn):
                                     txt += " " + k.value
                 import re as _re
                 toks = set(_re.split(r"[^A-Za-z0-9_]+", txt))
-                if any(f in toks for f in PRESERVED_INTS):
+                if any(f in toks for f in falsy):
                     hits += 1
                     ctx.violated("C04-R6", c, rel, q, "`%s`" % src(c)[:60],
-                                 "truth-testing a preserved integer: a stored value of 0 is falsy and is silently replaced / dropped")
+                                 "truth-testing a preserved field that has a legal falsy value (integer 0, the virtual-site element whose __bool__ is False): that value is silently replaced / dropped")
     return hits
 
 
